@@ -45,7 +45,7 @@ def classify(cases_path):
             contention = G * M >= 100
         if G >= 2 and contention:
             # distinct by configuration and outcome (schedules differ from run to run)
-            nontrivial.add(re.sub(r"\bid=\d+ ", "", l.strip()))
+            nontrivial.add(re.sub(r"\b(id|seed)=\d+ ", "", l.strip()))
             if len(samples) < 4 and (kind == "CAT" or h["mode"] == "buf" or len(samples) < 1):
                 samples.append(l.strip()[:700])
     return n, dist, nontrivial, samples
